@@ -243,10 +243,10 @@ func (f *myFails) emit(r *ev.Run) {
 
 type myWorld struct {
 	fails *myFails
-	r   *ev.Run
-	ks  *filesystem.KeyStore
-	cfg myCfg
-	env *sess.MyEnv
+	r     *ev.Run
+	ks    *filesystem.KeyStore
+	cfg   myCfg
+	env   *sess.MyEnv
 	// envelopes prepared once per configuration: [owner][column c / d][value index]
 	envl map[string][]byte
 }
